@@ -483,6 +483,17 @@ fn attach(ef: EliasFano, kind: &str, nb: bool) -> Built {
                     .map_high_bits(SelectZeroAdaptConst::<_, _, 12, 3>::new),
                 nb,
             ),
+            // ---- the same stacks built from the outside in, through the structures' own `map`
+            "seqdict_map" => pack_seqdict(
+                ef.map_high_bits(|b: Bits| {
+                    SelectZeroAdaptConst::<_, _, 5, 0>::new(b).map(SelectAdaptConst::<_, _, 4, 1>::new)
+                }),
+                nb,
+            ),
+            "seqdict_map2" => pack_seqdict(
+                ef.map_high_bits(|b: Bits| SelectAdapt::with_inv(b, 2, 0).map(|b| SelectZeroAdapt::with_inv(b, 3, 1))),
+                nb,
+            ),
             "seqdict_small" => pack_seqdict_full(
                 ef.map_high_bits(|b: Bits| SelectSmall::<1, 10, _>::new(rank_small![2; b]))
                     .map_high_bits(SelectZeroSmall::<1, 10, _>::new),
